@@ -326,6 +326,13 @@ func runC07(r *core.Run) {
 			loc, o := corruptN(r, base, []byte(SnpURL(meas)), "locator")
 			if r.Chance(30, "locator-intact?") {
 				loc, o = base, "intact"
+			} else if r.Chance(25, "locator-cut?") {
+				// cut at a boundary of the locator's layout: inside the GUID, exactly after it (an empty
+				// name), after one UCS-2 unit, before the terminator
+				k := []int{0, 1, 15, 16, 17, 18, 19, len(base) - 2, len(base) - 1}[r.Intn(9, "locator-cut-at")]
+				if k >= 0 && k <= len(base) {
+					loc, o = append([]byte(nil), base[:k]...), fmt.Sprintf("field:locator-cut@%d", k)
+				}
 			}
 			loc = r.Blob(fmt.Sprintf("in%d", i), func() []byte { return loc })
 			ops, inputLen = o, len(loc)
@@ -426,7 +433,10 @@ func fieldMutate(r *core.Run, a *Party, is *Issued) ([]byte, string) {
 			ops = append(ops, "field:measurements=nil")
 		case 7:
 			if g.SevSnp != nil {
-				g.SevSnp.CaBundle = [][]byte{nil, []byte("-----BEGIN CERTIFICATE-----\n"), []byte("-----BEGIN X-----\nAAAA\n-----END X-----\n"), short("bundle")}[r.Intn(4, "bundle")]
+				pemRoot := pemOf(a.Root)
+				many := func(n int) []byte { return bytes.Repeat(pemRoot, n) }
+				g.SevSnp.CaBundle = [][]byte{nil, []byte("-----BEGIN CERTIFICATE-----\n"), []byte("-----BEGIN X-----\nAAAA\n-----END X-----\n"), short("bundle"),
+					many(1), many(2), many(3), many(5), append(many(2), []byte("trailing garbage")...)}[r.Intn(9, "bundle")]
 				g.SevSnp.SvsmMeasurement = short("svsm")
 			}
 			ops = append(ops, "field:ca_bundle/svsm")
